@@ -30,7 +30,10 @@ use json::{Json, Kv};
 #[global_allocator]
 static GLOBAL: alloc::Counting = alloc::Counting;
 
-const VERIF_DIR: &str = "/verif";
+/// Root of the verification tree (`/verif`; a background snapshot sets VERIF_HOME to its own copy).
+fn verif_dir() -> String {
+    std::env::var("VERIF_HOME").unwrap_or_else(|_| "/verif".to_string())
+}
 
 /// Dispatch a component name to its `Prop` implementation.
 macro_rules! dispatch {
@@ -134,10 +137,14 @@ fn threads() -> usize {
 }
 
 fn other_build_exe(build: &str) -> String {
-    format!("{VERIF_DIR}/target/{build}/flussab-sim")
+    #[allow(non_snake_case)]
+    let VD = verif_dir();
+    format!("{VD}/target/{build}/flussab-sim")
 }
 
 fn run_part<P: Prop>(p: &P, tier: Tier, seed: u64, outfile: &str) {
+    #[allow(non_snake_case)]
+    let VD = verif_dir();
     let opts = Opts {
         seed,
         tier,
@@ -178,7 +185,7 @@ fn run_part<P: Prop>(p: &P, tier: Tier, seed: u64, outfile: &str) {
     // minimise and persist up to 3 violations with distinct (check, signature)
     let mut seen: Vec<(String, String)> = vec![];
     let mut n = 0;
-    let _ = std::fs::create_dir_all(format!("{VERIF_DIR}/replays"));
+    let _ = std::fs::create_dir_all(format!("{VD}/replays"));
     for f in out.found {
         let key = (f.violation.check.to_string(), f.violation.signature.clone());
         if seen.contains(&key) || n >= 3 {
@@ -188,7 +195,7 @@ fn run_part<P: Prop>(p: &P, tier: Tier, seed: u64, outfile: &str) {
         let (case, v, used) = minimise(p, f.case, f.violation);
         let rk = replay_kv(p, seed, f.run, &case, &v, used);
         let path = format!(
-            "{VERIF_DIR}/replays/{}-{}-{}-{}.replay",
+            "{VD}/replays/{}-{}-{}-{}.replay",
             p.id(),
             build_name(),
             seed,
@@ -270,8 +277,10 @@ fn cmd_replay(path: &str) -> i32 {
 
 /// Runs the simulator under Miri (`cargo +nightly miri run`), returns (exit code, stdout+stderr).
 fn run_miri(args: &[&str], log: Option<&str>) -> (i32, String) {
+    #[allow(non_snake_case)]
+    let VD = verif_dir();
     let mut cmd = Command::new("cargo");
-    cmd.current_dir(format!("{VERIF_DIR}/sim"))
+    cmd.current_dir(format!("{VD}/sim"))
         .env("CARGO_NET_OFFLINE", "true")
         .args([
             "+nightly",
@@ -281,7 +290,7 @@ fn run_miri(args: &[&str], log: Option<&str>) -> (i32, String) {
             "--release",
             "--quiet",
             "--target-dir",
-            &format!("{VERIF_DIR}/target/miri"),
+            &format!("{VD}/target/miri"),
             "--",
         ])
         .args(args);
@@ -316,6 +325,8 @@ struct MiriOutcome {
 /// Memory oracle for C14: the same kinds of histories (plus scanner and parser drives) executed
 /// under Miri in parallel interpreter processes.
 fn run_miri_parts(tier: Tier, seed: u64) -> MiriOutcome {
+    #[allow(non_snake_case)]
+    let VD = verif_dir();
     let start = std::time::Instant::now();
     let mut out = MiriOutcome {
         runs: 0,
@@ -325,7 +336,7 @@ fn run_miri_parts(tier: Tier, seed: u64) -> MiriOutcome {
         wall_s: 0.0,
     };
     // build once, so that the parallel jobs do not queue up behind the build lock
-    let (code, text) = run_miri(&["miri-noop"], Some(&format!("{VERIF_DIR}/target/parts/miri-build.log")));
+    let (code, text) = run_miri(&["miri-noop"], Some(&format!("{VD}/target/parts/miri-build.log")));
     if code != 0 || !text.contains("MIRI-NOOP") {
         out.errors.push(format!("Miri build/run failed (exit {code}): {}", text.lines().rev().take(8).collect::<Vec<_>>().join(" | ")));
         return out;
@@ -350,8 +361,9 @@ fn run_miri_parts(tier: Tier, seed: u64) -> MiriOutcome {
             .iter()
             .enumerate()
             .map(|(i, j)| {
+                let vd = VD.clone();
                 sc.spawn(move || {
-                    let log = format!("{VERIF_DIR}/target/parts/miri-{}-{}.log", j.comp, j.lo);
+                    let log = format!("{vd}/target/parts/miri-{}-{}.log", j.comp, j.lo);
                     let (code, text) = run_miri(
                         &[
                             "miri-batch",
@@ -426,12 +438,14 @@ struct Part {
 }
 
 fn spawn_part(comp: &str, build: &str, tier: Tier, seed: u64) -> Result<Option<Part>, String> {
+    #[allow(non_snake_case)]
+    let VD = verif_dir();
     let exe = other_build_exe(build);
     if !std::path::Path::new(&exe).exists() {
         return Err(format!("binary for build {build} missing: {exe}"));
     }
-    let out = format!("{VERIF_DIR}/target/parts/{comp}.{build}.part");
-    let _ = std::fs::create_dir_all(format!("{VERIF_DIR}/target/parts"));
+    let out = format!("{VD}/target/parts/{comp}.{build}.part");
+    let _ = std::fs::create_dir_all(format!("{VD}/target/parts"));
     let _ = std::fs::remove_file(&out);
     let st = Command::new(&exe)
         .args(["part", comp, tier.name(), &seed.to_string(), &out])
@@ -451,6 +465,8 @@ fn spawn_part(comp: &str, build: &str, tier: Tier, seed: u64) -> Result<Option<P
 }
 
 fn cmd_check(property: &str, tier: Tier) -> i32 {
+    #[allow(non_snake_case)]
+    let VD = verif_dir();
     let seed = seed_from_env();
     let comps = components(property);
     if comps.is_empty() {
@@ -458,7 +474,7 @@ fn cmd_check(property: &str, tier: Tier) -> i32 {
         return 2;
     }
     println!("flussab-sim check property={property} tier={} VERIF_SEED={seed}", tier.name());
-    let known = Known::load(&format!("{VERIF_DIR}/known_findings.txt"));
+    let known = Known::load(&format!("{VD}/known_findings.txt"));
     let start = std::time::Instant::now();
     let mut evaluations = 0u64;
     let mut distinct = 0u64;
@@ -620,8 +636,8 @@ fn cmd_check(property: &str, tier: Tier) -> i32 {
         rules.push("[C14m] the C14r/C14w histories plus C13 scanner cases and C01 parser drives (separate seeded stream, smaller cases) executed under Miri in parallel interpreter processes; any Miri 'Undefined Behavior' report is a violation".to_string());
         real.push("Miri interpreter as memory oracle (out-of-bounds, invalid references, uninitialised reads, aliasing)".to_string());
         for (comp, run, what) in m.findings {
-            let path = format!("{VERIF_DIR}/replays/{comp}-miri-{seed}-{run}.replay");
-            let _ = std::fs::create_dir_all(format!("{VERIF_DIR}/replays"));
+            let path = format!("{VD}/replays/{comp}-miri-{seed}-{run}.replay");
+            let _ = std::fs::create_dir_all(format!("{VD}/replays"));
             let st = Command::new(other_build_exe("simdbg"))
                 .args(["miri-case", &comp, &run.to_string(), &seed.to_string(), &path])
                 .status();
@@ -679,8 +695,8 @@ fn cmd_check(property: &str, tier: Tier) -> i32 {
         ("wall_s", Json::F(wall)),
         ("violations", Json::U(violations)),
     ]);
-    let _ = std::fs::create_dir_all(format!("{VERIF_DIR}/evidence"));
-    let path = format!("{VERIF_DIR}/evidence/{property}.json");
+    let _ = std::fs::create_dir_all(format!("{VD}/evidence"));
+    let path = format!("{VD}/evidence/{property}.json");
     if let Err(e) = std::fs::write(&path, ev.render()) {
         eprintln!("harness error: cannot write {path}: {e}");
         return 2;
